@@ -812,7 +812,13 @@ func (x *Exec) applyFuncValue(ft *smt.Term, sig *types.Signature, args []*Val) *
 		rs := x.so.SortOf(rt)
 		name := fmt.Sprintf("apply_%s_to_%s_r%d", sk, smt.Sanitize(rs), i)
 		x.declareUF(name, sorts, rs)
-		return &Val{Typ: rt, T: x.b.App(name, rs, terms...)}
+		app := x.b.App(name, rs, terms...)
+		if rs == "Real" && x.ufDecl["infax"] && !app.Bound {
+			// values returned by (pure) functions are finite in the real model
+			inf := x.b.Const("math_inf", "Real")
+			x.axiom(x.b.And(x.b.Cmp("<", app, inf), x.b.Cmp("<", x.b.Neg(inf), app)))
+		}
+		return &Val{Typ: rt, T: app}
 	}
 	switch res.Len() {
 	case 0:
